@@ -34,7 +34,7 @@ import os
 
 from harness.translate import translate as T
 
-VERSION = "x_dimension.py/1"
+VERSION = "x_dimension.py/2"
 SRC = "cr/cube/dimension.py"
 ENUMS = "cr/cube/enums.py"
 GEN_FILES = ("DimensionSrc.v",)
@@ -1021,6 +1021,8 @@ class _Member(object):
                 kty = tyr[1]
                 tl, _ = coerce(tl, tyl, kty)
                 if kty == JV:
+                    if tyr[2] != JV:   # pd_contains reads a jdict (JSON keys AND values): fail closed otherwise
+                        _un("`in` on a dict with JSON keys whose values are %r" % (tyr[2],), e)
                     n = self.fresh()
                     binds = binds + [("bind", n, "(pd_contains %s %s)" % (tr_, tl))]
                     r = n
@@ -1066,6 +1068,8 @@ class _Member(object):
             bk, tk, _ = self.tr(e.slice, env, tyd[1])
             n = self.fresh()
             if tyd[1] == JV:
+                if tyd[2] != JV:   # pd_getitem reads a jdict: fail closed otherwise
+                    _un("subscript of a dict with JSON keys whose values are %r" % (tyd[2],), e)
                 return bd + bk + [("bind", n, "(pd_getitem %s %s)" % (td, tk))], n, tyd[2]
             return bd + bk + [("bind", n, "(py_dict_getitem %s %s %s)" % (eqb_of(tyd[1]), td, tk))], n, tyd[2]
         if tyd[0] == "list":
@@ -1479,6 +1483,8 @@ class _Member(object):
                 else:
                     _un(".get() without default on a dict of %r" % (vty,), e)
                 if kty == JV:
+                    if vty != JV:   # pd_get reads a jdict: fail closed otherwise
+                        _un(".get() on a dict with JSON keys whose values are %r" % (vty,), e)
                     n = self.fresh()
                     return b + bk + bd + [("bind", n, "(pd_get %s %s %s)" % (t, tk, tdf))], n, vty
                 return b + bk + bd, "(py_dict_get_default %s %s %s %s)" % (eqb_of(kty), t, tk, tdf), vty
